@@ -11,6 +11,7 @@ package c16
 import (
 	"fmt"
 	"strings"
+	"sync/atomic"
 
 	"mosn.io/api"
 	v2 "mosn.io/mosn/pkg/config/v2"
@@ -72,12 +73,11 @@ func (r *flagRig) yield(site int) {
 	<-r.resume[me]
 }
 
+// reset writes the initial word through the raw pointer the package hands out for the address (independent of the
+// functions under test).
 func (r *flagRig) reset(init uint64) {
 	cluster.VerifSetHealthYield(nil)
-	r.observer.ClearHealthFlag(api.HealthFlag(-1)) // all 64 bits
-	if init != 0 {
-		r.observer.SetHealthFlag(api.HealthFlag(init))
-	}
+	atomic.StoreUint64(cluster.GetHealthFlagPointer(r.observer.AddressString()), init)
 }
 
 type stepObs struct {
@@ -129,9 +129,9 @@ func (r *flagRig) runSchedule(init uint64, threads [][]flagOp, prefix []int, rng
 		t := -1
 		if len(sched) < len(prefix) {
 			t = prefix[len(sched)]
-			if finished[t] {
-				panic("schedule prefix names a finished thread")
-			}
+		}
+		if t >= 0 && !finished[t] {
+			// replaying the prefix
 		} else if rng != nil {
 			k := rng.Intn(left())
 			for i, f := range finished {
